@@ -122,8 +122,8 @@ package raft
 //@ inv [I3] Lfirst <= r.lastIncludedIndex
 //@ inv [I4] Lfirst <= r.lastApplied
 //@ inv [Iclk] r.lastContact <= now
-//@ inv [I6] r.configuration != nil && r.followers != nil
-//@ inv [I6b] forall id string :: id in r.followers ==> r.followers[id] != nil
+//@ inv [I6] r.state != Shutdown ==> r.configuration != nil && r.followers != nil
+//@ inv [I6b] r.state != Shutdown ==> forall id string :: id in r.followers ==> r.followers[id] != nil
 //@ inv [I7] persTerm == r.currentTerm && persVote == r.votedFor
 //@ inv [I13] r.state == Leader ==> forall fid string :: fid in r.followers ==> r.followers[fid].nextIndex <= Llast + 1
 //@ inv [I11] r.operationManager != nil && r.operationManager.leaderLease != nil
